@@ -24,6 +24,9 @@ EXTENDS LaunchOps, TLC
 
 CONSTANTS Nodes,          \* node names
           Local,          \* names that denote the executor's own node
+          AliasNodes,     \* other nodes whose names are prefix-related to the own name
+                          \* (a proper prefix of it, an extension of it, its FQDN)
+          PrefixRel,      \* pairs <<a, b>>: name a is a proper prefix of name b
           MaxRanks,
           Thr,            \* scaled host-list limit
           MaxHist,
@@ -33,6 +36,7 @@ CONSTANTS Nodes,          \* node names
           DevDplaceAccum, \* D13 if it were reachable: -c list accumulates in the object
           DevPalsHull,    \* PALS cpu-bind written as first-last range of the core list
           DevForkShrink,  \* fork accepts a multi-rank task and starts one process
+          DevForkPrefix,  \* fork takes a node whose name is a prefix of its own name for its own
           DevMptCount,    \* MPT written with the total as -np
           DevSrunFirst,   \* srun node list taken from the first rank only
           DevFindLast     \* find_launcher returns the last able method
@@ -88,6 +92,11 @@ Placements ==
   {Mk(rs, 2, cl, gl, TRUE, TRUE) : rs \in UNION {Assign(k) : k \in 1 .. MaxRanks \div 2},
                                    cl \in CoreLayouts, gl \in GpuLayouts}
 
+\* single- and two-rank tasks on nodes with prefix-related names
+AliasPlacements ==
+  {Mk(<<a>>, 1, cl, "none", mpi, TRUE) : a \in AliasNodes, cl \in {"one", "pair"}, mpi \in BOOLEAN}
+  \cup {Mk(<<a, b>>, 1, "one", "none", TRUE, TRUE) : a \in AliasNodes, b \in AliasNodes \cup Local}
+
 Pick(S) == CHOOSE x \in S : TRUE
 N1 == Pick(Local \cap Nodes)
 N2 == Pick(Nodes \ Local)
@@ -105,6 +114,7 @@ HistTasks ==
 FindTasks ==
   HistTasks \cup {Mk(<<N1>>, 1, "one", "none", FALSE, FALSE),
                   Mk(<<N2>>, 1, "one", "none", FALSE, TRUE)}
+            \cup {Mk(<<a>>, 1, "one", "none", FALSE, TRUE) : a \in AliasNodes}
 
 JsShaped(T) == TRUE     \* every task built by Mk has the resource-set shape
 
@@ -174,7 +184,9 @@ Gen(c, r, T) ==
 
 Can(c, T) ==
   CASE c.m = "FORK" -> /\ (DevForkShrink \/ Len(T.p) = 1)
-                       /\ T.p[1].node \in Local /\ ~T.mpi /\ T.exe
+                       /\ (\/ T.p[1].node \in Local
+                           \/ DevForkPrefix /\ \E a \in Local : <<T.p[1].node, a>> \in PrefixRel)
+                       /\ ~T.mpi /\ T.exe
     [] c.m = "SSH"  -> Len(T.p) = 1 /\ ~T.mpi /\ T.exe
     [] c.m = "RSH"  -> Len(T.p) = 1 /\ ~T.mpi
     [] OTHER        -> T.exe
@@ -211,7 +223,7 @@ Find(ord, T) ==
   /\ done' = TRUE /\ UNCHANGED <<cfg, res, n>>
 
 Next == \/ \E T \in HistTasks : GenH(T)
-        \/ \E T \in Placements : GenF(T)
+        \/ \E T \in Placements \cup AliasPlacements : GenF(T)
         \/ \E ord \in Orders, T \in FindTasks : Find(ord, T)
 
 Spec == Init /\ [][Next]_vars
@@ -222,8 +234,9 @@ Generated == cur.kind = "gen" /\ cur.out = "cmd"
 InvProcCount  == Generated => ProcCountOK(cfg, cur.C, cur.T.p)
 InvExactNodes == Generated => ExactNodesOK(cfg, cur.C, cur.T.p, Local)
 InvPins       == Generated => PinsOK(cfg, cur.C, cur.T.p)
-InvRefuse     == cur.kind = "gen" /\ CannotStart(cfg, Len(cur.T.p), cur.T.mpi) => cur.out = "refuse"
-InvOrder      == cur.kind = "find" => OrderOK(cur.cans, cur.sel)
+InvRefuse     == cur.kind = "gen" /\ CannotStart(cfg, cur.T.p, cur.T.mpi, Local) => cur.out = "refuse"
+InvOrder      == cur.kind = "find" => /\ OrderOK(cur.cans, cur.sel)
+                                      /\ SelAble(cur.ord, cur.sel, cur.T.p, cur.T.mpi, Local)
 InvResFixed   == res = <<>>
 
 \* the command depends only on the task at hand
